@@ -72,6 +72,14 @@ type State struct {
 	results   []Val
 	objOf     map[*ssa.Alloc]*Term // heap-class allocs: their reference
 	bump      map[string]int       // per-key version for arrays havocked before first touch
+	loopHeap  map[*Loop]map[string]*Term
+	clos      map[string]Val // closure reference (term key) -> function and bindings
+	invObjs   []invObj       // pointers whose type invariant was assumed on this path
+}
+
+type invObj struct {
+	v *Term
+	t types.Type
 }
 
 func newState() *State {
@@ -88,6 +96,18 @@ func (s *State) clone() *State {
 		epoch: s.epoch, seq: s.seq, prev: s.prev, bump: make(map[string]int, len(s.bump))}
 	for k, v := range s.bump {
 		n.bump[k] = v
+	}
+	if s.clos != nil {
+		n.clos = map[string]Val{}
+		for k, v := range s.clos {
+			n.clos[k] = v
+		}
+	}
+	if s.loopHeap != nil {
+		n.loopHeap = map[*Loop]map[string]*Term{}
+		for k, v := range s.loopHeap {
+			n.loopHeap[k] = v
+		}
 	}
 	for k, v := range s.cells {
 		n.cells[k] = v
@@ -113,6 +133,7 @@ func (s *State) clone() *State {
 	for k, v := range s.objOf {
 		n.objOf[k] = v
 	}
+	n.invObjs = append([]invObj{}, s.invObjs...)
 	n.assume = append([]*Term{}, s.assume...)
 	n.defers = append([]deferred{}, s.defers...)
 	n.trail = append([]string{}, s.trail...)
